@@ -624,8 +624,7 @@ func (m *mappedFile) entryAt(off uint32) (name []byte, next uint32, v *atomic.Ui
 // writeEntryAt only returns false in the presence of some form of corruption:
 // an offset outside the bounds of the record region in the mapped file.
 func (m *mappedFile) writeEntryAt(off uint32, name string) (next *atomic.Uint32, v *atomic.Uint64, ok bool) {
-	// TODO(rfindley): shouldn't this first condition be off < m.hdrLen+hashOff+4*numHash?
-	if off < m.hdrLen+hashOff || int64(off)+16+int64(len(name)) > int64(len(m.mapping.Data)) {
+	if off < m.hdrLen+hashOff+4*numHash || int64(off)+16+int64(len(name)) > int64(len(m.mapping.Data)) {
 		return nil, nil, false
 	}
 	copy(m.mapping.Data[off+16:], name)
